@@ -72,16 +72,21 @@ Proof.
   apply andb_true_iff in H as [_ H]. apply Z.eqb_eq in H. subst. eauto.
 Qed.
 
-(* operations of the HTTPReverseProxy itself; routes put into the Routers behind its back by
-   server/group/http.go are excluded here and treated in the refutation below *)
-Definition hq_no_group (o : hp_op) : Prop :=
-  match o with HGroupJoin _ _ _ _ _ => False | HGroupLeave _ _ _ => False | _ => True end.
+(* operations of the HTTPReverseProxy itself with requests routed and dialled without a route change
+   in between.  Excluded, and treated in the refutations below: routes put into the Routers behind
+   its back by server/group/http.go, and requests whose dial is overtaken by a Register/UnRegister *)
+Definition hq_plain_op (o : hp_op) : Prop :=
+  match o with
+  | HGroupJoin _ _ _ _ _ => False | HGroupLeave _ _ _ => False
+  | HBeginRaced _ _ _ _ _ _ _ _ => False
+  | _ => True
+  end.
 
-Lemma hq_step_inv st o st' out : hq_no_group o -> hq_inv st -> hp_step st o = Some (st', out) -> hq_inv st'.
+Lemma hq_step_inv st o st' out : hq_plain_op o -> hq_inv st -> hp_step st o = Some (st', out) -> hq_inv st'.
 Proof.
   intros Hng Hinv Hs. pose proof Hinv as [Hwf [Hids [Huniq [Hidle Hbusy]]]].
-  destruct o as [d l u owner|d l u|rid cc proto host path user dialed|rid|name d l u owner|d l u];
-    simpl in Hs; simpl in Hng; try contradiction.
+  destruct o as [d l u owner|d l u|rid cc proto host path user dialed|rid|name d l u owner|d l u|rid cc proto host path user dialed btw|chost cuser];
+    simpl in Hs; simpl in Hng; try contradiction; unfold hp_roundtrip, hp_key_of in Hs.
   - (* Register *)
     destruct (rt_add (hp_routes st) d l u (mkRc d l u owner (hp_seq st + 1) [])) as [rs|] eqn:A;
       inversion Hs; subst; clear Hs.
@@ -135,16 +140,18 @@ Proof.
       split; [intros x [<-|Hx]; [apply (Hbusy i), Hc|apply Hidle, Hx]|].
       intros j x Hx. apply (Hbusy j), Hsub, Hx.
     + inversion Hs; subst. exact Hinv.
+  - (* Connect: nothing is pooled *)
+    destruct (rt_get_vhost (hp_routes st) (rt_canon_or_empty chost) [] cuser); inversion Hs; subst; exact Hinv.
 Qed.
 
-Lemma hq_run_from_inv ops : Forall hq_no_group ops -> forall st st', hq_inv st -> hp_run_from st ops = Some st' -> hq_inv st'.
+Lemma hq_run_from_inv ops : Forall hq_plain_op ops -> forall st st', hq_inv st -> hp_run_from st ops = Some st' -> hq_inv st'.
 Proof.
   induction 1 as [|o ops Ho _ IH]; simpl; intros st st' Hi Hr; [inversion Hr; subst; exact Hi|].
   destruct (hp_step st o) as [[st1 out]|] eqn:S; [|discriminate].
   eapply IH; [eapply hq_step_inv; eassumption|exact Hr].
 Qed.
 
-Lemma hq_run_inv ops st : Forall hq_no_group ops -> hp_run ops = Some st -> hq_inv st.
+Lemma hq_run_inv ops st : Forall hq_plain_op ops -> hp_run ops = Some st -> hq_inv st.
 Proof. intro H. apply (hq_run_from_inv ops H), hq_inv_init. Qed.
 
 (* the central statement about one request in a state satisfying the invariant *)
@@ -154,7 +161,7 @@ Lemma hq_begin_spec st rid cc proto host path user dialed st' out : hq_inv st ->
 Proof.
   intros [Hwf [Hids [Huniq [Hidle Hbusy]]]] Hs. unfold hp_spec_out.
   rewrite <- (rq_refines (hp_routes st) _ path user Hwf).
-  simpl in Hs. destruct dialed.
+  simpl in Hs. unfold hp_roundtrip, hp_key_of in Hs. destruct dialed.
   - destruct (rt_get_vhost (hp_routes st) (rt_canon_or_empty host) path user) as [r|] eqn:G;
       inversion Hs; subst; reflexivity.
   - destruct (hp_take _ (hp_idle st)) as [[c idle']|] eqn:T; [|discriminate].
@@ -168,7 +175,7 @@ Proof.
 Qed.
 
 Theorem hq_request_reaches_current_best_match ops st rid cc proto host path user dialed st' out :
-  Forall hq_no_group ops -> hp_run ops = Some st ->
+  Forall hq_plain_op ops -> hp_run ops = Some st ->
   hp_step st (HBegin rid cc proto host path user dialed) = Some (st', out) ->
   out = hp_spec_out rc_owner (rt_abs (hp_routes st)) host path user.
 Proof. intros Hng Hr. apply hq_begin_spec. eapply hq_run_inv; eassumption. Qed.
@@ -181,8 +188,19 @@ Proof.
   destruct (rq_get_vhost_best _ _ _ _ _ Hwf H) as [A [B _]]. split; [apply rp_in_abs; assumption|exact B].
 Qed.
 
+(* CONNECT at the vhost HTTP port: same routing, empty path *)
+Theorem hq_connect_reaches_current_best_match ops st host user st' out :
+  Forall hq_plain_op ops -> hp_run ops = Some st ->
+  hp_step st (HConnect host user) = Some (st', out) ->
+  out = hp_spec_out rc_owner (rt_abs (hp_routes st)) host [] user /\ st' = st.
+Proof.
+  intros Hng Hr Hs. destruct (hq_run_inv _ _ Hng Hr) as [Hwf _]. unfold hp_spec_out.
+  rewrite <- (rq_refines (hp_routes st) _ [] user Hwf). simpl in Hs.
+  destruct (rt_get_vhost (hp_routes st) (rt_canon_or_empty host) [] user); inversion Hs; subst; auto.
+Qed.
+
 Theorem hq_unregistered_owner_not_reached ops st rid cc proto host path user dialed st' b :
-  Forall hq_no_group ops -> hp_run ops = Some st ->
+  Forall hq_plain_op ops -> hp_run ops = Some st ->
   hp_step st (HBegin rid cc proto host path user dialed) = Some (st', HReached b) ->
   exists r, In r (rt_abs (hp_routes st)) /\ rs_matches r (rt_canon_or_empty host) path user = true /\
             rc_owner (rt_pay r) = b.
@@ -196,7 +214,7 @@ Qed.
 
 (* traffic (requests beginning and ending) does not touch the route table *)
 Definition hq_is_traffic (o : hp_op) : Prop :=
-  match o with HBegin _ _ _ _ _ _ _ => True | HEnd _ => True | _ => False end.
+  match o with HBegin _ _ _ _ _ _ _ => True | HEnd _ => True | HConnect _ _ => True | _ => False end.
 
 Lemma hq_traffic_routes reqs : Forall hq_is_traffic reqs -> forall st st',
   hp_run_from st reqs = Some st' -> hp_routes st' = hp_routes st.
@@ -204,11 +222,12 @@ Proof.
   induction 1 as [|o reqs Ho _ IH]; simpl; intros st st' Hr; [inversion Hr; reflexivity|].
   destruct (hp_step st o) as [[st1 out]|] eqn:S; [|discriminate].
   rewrite (IH _ _ Hr).
-  destruct o as [d l u owner|d l u|rid cc proto host path user dialed|rid|name d l u owner|d l u]; simpl in Ho; try contradiction; simpl in S.
-  - destruct dialed.
+  destruct o as [d l u owner|d l u|rid cc proto host path user dialed|rid|name d l u owner|d l u|rid cc proto host path user dialed btw|chost cuser]; simpl in Ho; try contradiction; simpl in S.
+  - unfold hp_roundtrip, hp_key_of in S. destruct dialed.
     + destruct (rt_get_vhost _ _ _ _); inversion S; subst; reflexivity.
     + destruct (hp_take _ _) as [[c i]|]; inversion S; subst; reflexivity.
   - destruct (hp_take_busy _ _) as [[c i]|]; inversion S; subst; reflexivity.
+  - destruct (rt_get_vhost _ _ _ _); inversion S; subst; reflexivity.
 Qed.
 
 Lemma hq_run_from_app a : forall b st st', hp_run_from st (a ++ b) = Some st' ->
@@ -220,7 +239,7 @@ Qed.
 
 Theorem hq_reregistered_route_never_reaches_old_owner
   ops d l u newowner reqs st rid cc proto host path user dialed st' b r :
-  Forall hq_no_group ops -> Forall hq_is_traffic reqs ->
+  Forall hq_plain_op ops -> Forall hq_is_traffic reqs ->
   hp_run (ops ++ [HUnRegister d l u; HRegister d l u newowner] ++ reqs) = Some st ->
   hp_step st (HBegin rid cc proto host path user dialed) = Some (st', HReached b) ->
   rs_best_match (rt_abs (hp_routes st)) (rt_canon_or_empty host) path user = Some r ->
@@ -228,7 +247,7 @@ Theorem hq_reregistered_route_never_reaches_old_owner
   b = newowner.
 Proof.
   intros Hng Ht Hr Hs Hb D L U.
-  assert (Hng' : Forall hq_no_group (ops ++ [HUnRegister d l u; HRegister d l u newowner] ++ reqs)).
+  assert (Hng' : Forall hq_plain_op (ops ++ [HUnRegister d l u; HRegister d l u newowner] ++ reqs)).
   { apply Forall_app. split; [exact Hng|]. constructor; [exact I|]. constructor; [exact I|].
     eapply Forall_impl; [|exact Ht]. intros o Ho. destruct o; simpl in *; tauto. }
   pose proof (hq_run_inv _ _ Hng' Hr) as Hi.
@@ -281,4 +300,29 @@ Proof.
     vm_compute in R. inversion R; subst st; clear R. vm_compute in S. inversion S; subst. split; [reflexivity|].
     vm_compute. reflexivity.
   - exfalso. vm_compute in R. inversion R; subst st; clear R. vm_compute in S. discriminate.
+Qed.
+
+(* ---------- a request overtaken by a registration between its routing decision and its dial ---------- *)
+(* The pool key is decided by injectRequestInfoToCtx; DialContext looks the route up again.  A request
+   for which NO route exists at the first moment is keyed by the bare host; if a route for the host is
+   registered before the dial, the new connection leads to that route's backend but is pooled under
+   the bare-host key -- the key of every later request for which no route exists.  When the route is
+   unregistered while that request is still in flight, the connection survives CloseIdleConnections,
+   and afterwards requests to a host without any route are answered by the former owner's backend. *)
+Definition hq_window_witness : list hp_op :=
+  [HBeginRaced 1 0 0 (hx "682e74657374") (hx "2f") [] true (HRegister (hx "682e74657374") [] [] 1);
+   HUnRegister (hx "682e74657374") [] [];
+   HEnd 1].
+
+Theorem hq_unrouted_request_reaches_former_owner :
+  exists st st',
+    hp_run hq_window_witness = Some st /\
+    rt_abs (hp_routes st) = [] /\
+    hp_step st (HBegin 2 0 0 (hx "682e74657374") (hx "2f") [] false) = Some (st', HReached 1) /\
+    hp_spec_out rc_owner (rt_abs (hp_routes st)) (hx "682e74657374") (hx "2f") [] = HNotFound.
+Proof.
+  destruct (hp_run hq_window_witness) as [st|] eqn:R; [|vm_compute in R; discriminate].
+  vm_compute in R. inversion R; subst st; clear R.
+  eexists. eexists. split; [reflexivity|]. split; [vm_compute; reflexivity|].
+  split; [vm_compute; reflexivity|vm_compute; reflexivity].
 Qed.
